@@ -188,6 +188,9 @@ func (a *tx2Adapter) watch(ctx context.Context, evkey string, replay bool, w *rw
 		return err
 	}
 	go func() {
+		if !w.waitUnpaused() {
+			return
+		}
 		for {
 			select {
 			case <-w.stopCh:
@@ -272,6 +275,9 @@ func (a *prop2Adapter) watch(ctx context.Context, evkey string, replay bool, w *
 		return err
 	}
 	go func() {
+		if !w.waitUnpaused() {
+			return
+		}
 		for {
 			select {
 			case <-w.stopCh:
@@ -358,6 +364,9 @@ func (a *cfg2Adapter) watch(ctx context.Context, evkey string, replay bool, w *r
 		return err
 	}
 	go func() {
+		if !w.waitUnpaused() {
+			return
+		}
 		for {
 			select {
 			case <-w.stopCh:
@@ -466,6 +475,9 @@ func (a *tx3Adapter) watch(ctx context.Context, evkey string, replay bool, w *rw
 		return err
 	}
 	go func() {
+		if !w.waitUnpaused() {
+			return
+		}
 		for {
 			select {
 			case <-w.stopCh:
@@ -562,6 +574,9 @@ func (a *cfg3Adapter) watch(ctx context.Context, evkey string, replay bool, w *r
 		return err
 	}
 	go func() {
+		if !w.waitUnpaused() {
+			return
+		}
 		for {
 			select {
 			case <-w.stopCh:
@@ -588,6 +603,8 @@ type rwatch struct {
 	replay    bool
 	cancel    context.CancelFunc
 	stopCh    chan struct{}
+	pauseCh   chan struct{} // non-nil: the consumer starts reading only when it is closed
+	paused    bool
 	stopped   bool
 	cancelled bool
 	mu        sync.Mutex
@@ -609,6 +626,19 @@ func (w *rwatch) setClosed() {
 	w.closed = true
 	w.mu.Unlock()
 	atomic.AddInt64(w.events, 1)
+}
+
+// waitUnpaused blocks a paused consumer until it is unpaused (false: stopped meanwhile).
+func (w *rwatch) waitUnpaused() bool {
+	if w.pauseCh == nil {
+		return true
+	}
+	select {
+	case <-w.pauseCh:
+		return true
+	case <-w.stopCh:
+		return false
+	}
 }
 
 func (w *rwatch) covers(k string) bool { return w.key == "" || w.key == k }
@@ -890,7 +920,7 @@ func (r *real) watchersText() string {
 	var parts []string
 	unsettled := false
 	for _, w := range r.watchers {
-		if w.stopped && !w.cancelled {
+		if (w.stopped || w.paused) && !w.cancelled {
 			unsettled = true
 		}
 	}
@@ -925,7 +955,7 @@ func (r *real) watchersText() string {
 // settled: every live, reading watcher has been shown the current version of every record it must see.
 func (r *real) settled() bool {
 	for _, w := range r.watchers {
-		if w.stopped && !w.cancelled {
+		if (w.stopped || w.paused) && !w.cancelled {
 			return true // nothing will be compared
 		}
 	}
@@ -1143,8 +1173,18 @@ func (r *real) Exec(line string) (out string) {
 		}
 		sort.Strings(items)
 		return "ok " + strings.Join(items, ";")
+	case "unpause":
+		w := r.widx(first(args))
+		if w == nil {
+			return "bad-op"
+		}
+		if w.paused {
+			w.paused = false
+			close(w.pauseCh)
+		}
+		return "ok"
 	case "watch":
-		if len(args) != 3 {
+		if len(args) != 3 && !(len(args) == 4 && args[3] == "paused") {
 			return "bad-op"
 		}
 		key := ""
@@ -1158,6 +1198,9 @@ func (r *real) Exec(line string) (out string) {
 		ctx, cancel := context.WithCancel(context.Background())
 		w := &rwatch{name: args[0], key: key, replay: args[1] == "1", cancel: cancel, stopCh: make(chan struct{}),
 			last: map[string]uint64{}, after: map[string]bool{}, events: &r.events}
+		if len(args) == 4 {
+			w.paused, w.pauseCh = true, make(chan struct{})
+		}
 		if err := r.a.watch(ctx, key, w.replay, w); err != nil {
 			cancel()
 			return "err " + errClass(err)
